@@ -27,6 +27,7 @@ PERTURBS = [0xFF, 0x7F, 0xA5, 0x01]
 NI_MODELS = [
     # (settings kind, evaluator, mode, version)
     ("sl_npa", "rbf", "SEP", 1),
+    ("sl_npa", "antisym", "SEP", 1),
     ("sl_nst", "spline", "NPOL", 1),
     ("sl_ns", "kernel", "SEP", 1),
     ("sl_np", "rbf+linear", "NPOL", 1),
